@@ -557,3 +557,719 @@ Theorem cont_cut_independent k o st uses1 uses2 :
   all_tokens o uses1 = all_tokens o uses2 -> is_nil uses1 = is_nil uses2 ->
   run_uses k o st uses1 = run_uses k o st uses2.
 Proof. intros Hs H1 H2 Ht Hn. rewrite !cont_fold; auto. rewrite Ht, Hn. reflexivity. Qed.
+
+(* ------------------------------------------------------------------ *)
+(** * Free values *)
+
+Definition use_text (u : use) : str := match u with UKey v | UFree v => v end.
+Definition is_key (u : use) : bool := match u with UKey _ => true | UFree _ => false end.
+
+(** in multi-value mode a free value is one more use of the argument *)
+Theorem cont_free_values stp o st us :
+  o_multi o = true \/ forallb is_key us = true ->
+  run_events stp o st true us = run_uses_gen stp o st (map use_text us).
+Proof.
+  revert st. induction us as [|u r IH]; intros st H; simpl; auto.
+  assert (Hr : o_multi o = true \/ forallb is_key r = true).
+  { destruct H as [H|H]; auto. simpl in H. apply andb_true_iff in H. tauto. }
+  destruct u as [v|v]; simpl.
+  - destruct (use_value stp o st v); simpl; auto.
+  - destruct H as [H|H]; [|simpl in H; discriminate H]. rewrite H.
+    destruct (use_value stp o st v); simpl; auto.
+Qed.
+
+(** without multi-value mode the first free value ends the evaluation with an error *)
+Theorem cont_free_value_refused stp o st hl pre v post :
+  o_multi o = false -> forall st', run_events stp o st hl (pre ++ UFree v :: post) <> Ok st'.
+Proof.
+  intros Hm. revert st hl. induction pre as [|u r IH]; intros st hl st'; simpl.
+  - rewrite Hm, andb_false_r. discriminate.
+  - destruct u as [w|w].
+    + destruct (use_value stp o st w); simpl; try discriminate. apply IH.
+    + rewrite Hm, andb_false_r. discriminate.
+Qed.
+
+(* ------------------------------------------------------------------ *)
+(** * Clear before assign: exactly once *)
+
+Definition no_clear (o : copts) : copts :=
+  {| o_sep := o_sep o; o_clear := false; o_sort := o_sort o; o_uniq := o_uniq o; o_dup_err := o_dup_err o;
+     o_multi := o_multi o; o_checks := o_checks o; o_fmts := o_fmts o; o_card := o_card o |}.
+
+Lemma assign_tokens_ext stp o o' toks : o_card o = o_card o' ->
+  forall first n c, assign_tokens stp o toks first n c = assign_tokens stp o' toks first n c.
+Proof.
+  intros Hc. induction toks as [|t r IH]; intros; simpl; auto. rewrite Hc.
+  destruct (if first then Ok n else card_got (o_card o') n); simpl; auto.
+  destruct (stp t c); simpl; auto.
+Qed.
+
+Lemma run_uses_gen_ext stp o o' :
+  o_sep o = o_sep o' -> o_card o = o_card o' -> o_sort o = o_sort o' ->
+  forall uses st, run_uses_gen stp o st uses = run_uses_gen stp o' st uses.
+Proof.
+  intros Hs Hc Ho. induction uses as [|u r IH]; intros; simpl; auto.
+  unfold use_value, assign_container. rewrite Hs, Hc, Ho.
+  destruct (card_got (o_card o') (c_cnt st)); simpl; auto.
+  rewrite (assign_tokens_ext stp o o' _ Hc).
+  destruct (assign_tokens stp o' (tokens (o_sep o') u) true a _); simpl; auto.
+Qed.
+
+(** with clear-before-assign the uses behave exactly like the uses of the same
+    argument without that option on the emptied destination: the content from
+    before is gone, what the first use stored is kept by all later uses *)
+Theorem cont_clear_once k o before u rest :
+  o_clear o = true ->
+  run_uses k o (init_state o before) (u :: rest) =
+  run_uses k (no_clear o) (init_state (no_clear o) (clear_cont before)) (u :: rest).
+Proof.
+  intros Hc. unfold run_uses.
+  change (step k (no_clear o)) with (step k o).
+  rewrite <- (run_uses_gen_ext (step k o) o (no_clear o)); auto.
+  simpl. unfold use_value, assign_container, init_state. simpl. rewrite Hc. reflexivity.
+Qed.
+
+(* ------------------------------------------------------------------ *)
+(** * Sorted *)
+
+Definition sorted_cont (c : cont) : Prop :=
+  match c with
+  | CInts l => StronglySorted Z.le l
+  | CArr l i => StronglySorted Z.le (firstn i l)
+  | CStrs l => StronglySorted (le_of str_ltb) l
+  | _ => True
+  end.
+
+Lemma firstn_sorted_part l idx :
+  firstn idx (sort_by Z.ltb (firstn idx l) ++ skipn idx l) = sort_by Z.ltb (firstn idx l).
+Proof.
+  assert (Hl : length (sort_by Z.ltb (firstn idx l)) = length (firstn idx l))
+    by apply (Permutation_length (sort_by_perm Z.ltb (firstn idx l))).
+  destruct (Nat.le_gt_cases idx (length l)) as [H|H].
+  - rewrite firstn_length in Hl. rewrite firstn_app, Hl.
+    replace (idx - Nat.min idx (length l)) with 0 by lia. simpl firstn at 2. rewrite app_nil_r.
+    apply firstn_all2. rewrite (Permutation_length (sort_by_perm Z.ltb (firstn idx l))), firstn_length. lia.
+  - rewrite (skipn_all2 l) by lia. rewrite app_nil_r. apply firstn_all2.
+    rewrite Hl, firstn_length. lia.
+Qed.
+
+Lemma sort_cont_sorted c : sorted_cont (sort_cont c).
+Proof.
+  destruct c; simpl; auto.
+  - apply sort_by_Z_sorted.
+  - rewrite firstn_sorted_part. apply sort_by_Z_sorted.
+  - apply sort_by_sorted; [apply str_lt_irrefl|apply str_lt_le_trans].
+Qed.
+
+Lemma run_last stp o uses : forall st st',
+  uses <> [] -> run_uses_gen stp o st uses = Ok st' -> exists c, c_val st' = norm o c.
+Proof.
+  induction uses as [|u r IH]; intros st st' Hne H; [congruence|].
+  simpl in H. inv_bind H. destruct r as [|u2 r'].
+  - simpl in H. inversion H; subst. unfold use_value, assign_container in E.
+    step_inv_all. simpl. eexists. reflexivity.
+  - eapply IH; eauto. discriminate.
+Qed.
+
+Theorem cont_sorted_gen stp o st uses st' :
+  o_sort o = true -> uses <> [] -> run_uses_gen stp o st uses = Ok st' -> sorted_cont (c_val st').
+Proof.
+  intros Hs Hne H. destruct (run_last _ _ _ _ _ Hne H) as [c Hc].
+  rewrite Hc. unfold norm. rewrite Hs. apply sort_cont_sorted.
+Qed.
+
+Theorem cont_sorted k o st uses st' :
+  o_sort o = true -> uses <> [] -> run_uses k o st uses = Ok st' -> sorted_cont (c_val st').
+Proof. apply cont_sorted_gen. Qed.
+
+(* ------------------------------------------------------------------ *)
+(** * Invariants and per-element facts through any list of uses *)
+
+Section Inv.
+Variable stp : str -> cont -> res cont.
+Variable o : copts.
+Variable I : cont -> Prop.
+Variable P : str -> Prop.
+Hypothesis H_step : forall t c c', I c -> stp t c = Ok c' -> I c' /\ P t.
+Hypothesis H_sort : forall c, I c -> I (sort_cont c).
+Hypothesis H_clear : forall c, I c -> I (clear_cont c).
+Hypothesis H_pre : forall c, I c -> I (pre_use c).
+
+Lemma assign_tokens_inv toks : forall first n c n' c',
+  I c -> assign_tokens stp o toks first n c = Ok (n', c') -> I c' /\ Forall P toks.
+Proof.
+  induction toks as [|t r IH]; intros first n c n' c' Hi H; simpl in H.
+  - inversion H; subst. auto.
+  - inv_bind H. inv_bind H. destruct (H_step _ _ _ Hi E0) as [Hi' Hp].
+    destruct (IH _ _ _ _ _ Hi' H) as [Hi2 Hf]. auto.
+Qed.
+
+Lemma use_value_inv st u st' :
+  I (c_val st) -> use_value stp o st u = Ok st' -> I (c_val st') /\ Forall P (tokens (o_sep o) u).
+Proof.
+  intros Hi H. unfold use_value, assign_container in H. simpl in H.
+  inv_bind H. inv_bind H. inversion H; subst; clear H. destruct a0 as [n' c']. simpl.
+  apply assign_tokens_inv in E0.
+  - destruct E0 as [Hi' Hf]. split; auto. destruct (o_sort o); auto.
+  - apply H_pre. destruct (c_clearp st); auto.
+Qed.
+
+Lemma run_uses_inv uses : forall st st',
+  I (c_val st) -> run_uses_gen stp o st uses = Ok st' -> I (c_val st') /\ Forall P (all_tokens o uses).
+Proof.
+  induction uses as [|u r IH]; intros st st' Hi H; simpl in H.
+  - inversion H; subst. split; auto. constructor.
+  - inv_bind H. destruct (use_value_inv _ _ _ Hi E) as [Hi' Hf].
+    destruct (IH _ _ Hi' H) as [Hi2 Hf2]. split; auto.
+    unfold all_tokens. simpl. apply Forall_app. auto.
+Qed.
+End Inv.
+
+(** every element that reaches any destination passed every check - for every
+    kind, option set, list of uses, fixed and pinned element step *)
+Theorem cont_checks_every_element p k o st uses st' :
+  run_uses_gen (step_gen p k o) o st uses = Ok st' ->
+  Forall (fun t => run_checks (o_checks o) t = Ok tt) (all_tokens o uses).
+Proof.
+  intros H.
+  apply (run_uses_inv (step_gen p k o) o (fun _ => True) (fun t => run_checks (o_checks o) t = Ok tt)) in H; auto.
+  - tauto.
+  - intros t c c' _ Hs. split; auto. eapply step_gen_checks; eauto.
+Qed.
+
+Corollary cont_bad_element_refused p k o st uses t :
+  In t (all_tokens o uses) -> run_checks (o_checks o) t <> Ok tt ->
+  forall st', run_uses_gen (step_gen p k o) o st uses <> Ok st'.
+Proof.
+  intros Hin Hbad st' H. apply cont_checks_every_element in H.
+  rewrite Forall_forall in H. auto.
+Qed.
+
+(* ------------------------------------------------------------------ *)
+(** * Fixed-size destinations refuse what they cannot hold *)
+
+Definition fill (c : cont) : nat :=
+  match c with CArr _ i => i | CTuple _ _ _ n => n | _ => 0 end.
+
+Lemma fill_sort c : fill (sort_cont c) = fill c. Proof. destruct c; auto. Qed.
+Lemma fill_clear c : fill (clear_cont c) = fill c. Proof. destruct c; auto. Qed.
+Lemma fill_pre c : fill (pre_use c) = fill c. Proof. destruct c; auto. destruct size; auto. Qed.
+
+Section Count.
+Variable stp : str -> cont -> res cont.
+Variable o : copts.
+Variable I : cont -> Prop.
+Hypothesis H_step : forall t c c', I c -> stp t c = Ok c' -> I c' /\ fill c' = S (fill c).
+Hypothesis H_sort : forall c, I c -> I (sort_cont c).
+Hypothesis H_clear : forall c, I c -> I (clear_cont c).
+Hypothesis H_pre : forall c, I c -> I (pre_use c).
+
+Lemma assign_tokens_count toks : forall first n c n' c',
+  I c -> assign_tokens stp o toks first n c = Ok (n', c') -> I c' /\ fill c' = fill c + length toks.
+Proof.
+  induction toks as [|t r IH]; intros first n c n' c' Hi H; simpl in H.
+  - inversion H; subst. split; auto.
+  - inv_bind H. inv_bind H. destruct (H_step _ _ _ Hi E0) as [Hi' Hp].
+    destruct (IH _ _ _ _ _ Hi' H) as [Hi2 Hf]. split; auto. simpl. lia.
+Qed.
+
+Lemma run_uses_count uses : forall st st',
+  I (c_val st) -> run_uses_gen stp o st uses = Ok st' ->
+  I (c_val st') /\ fill (c_val st') = fill (c_val st) + length (all_tokens o uses).
+Proof.
+  induction uses as [|u r IH]; intros st st' Hi H; simpl in H.
+  - inversion H; subst. split; auto.
+  - inv_bind H. unfold use_value, assign_container in E. simpl in E.
+    inv_bind E. inv_bind E. inversion E; subst; clear E. destruct a1 as [n' c'].
+    apply assign_tokens_count in E1.
+    + destruct E1 as [Hi' Hf].
+      assert (Hi2 : I (if o_sort o then sort_cont c' else c')) by (destruct (o_sort o); auto).
+      eapply IH in H; [|exact Hi2]. destruct H as [Hi3 Hf3]. split; auto.
+      simpl in Hf3. rewrite Hf3. unfold all_tokens. simpl. rewrite app_length.
+      assert (fill (if o_sort o then sort_cont c' else c') = fill c') by (destruct (o_sort o); auto using fill_sort).
+      simpl in Hf. rewrite fill_pre in Hf.
+      assert (fill (if c_clearp st then clear_cont (c_val st) else c_val st) = fill (c_val st))
+        by (destruct (c_clearp st); auto using fill_clear).
+      lia.
+    + apply H_pre. destruct (c_clearp st); auto.
+Qed.
+End Count.
+
+Definition arr_kind (k : kind) (n : nat) : Prop := k = KArr n \/ k = KStdArr n.
+Definition arr_inv (n : nat) (c : cont) : Prop := exists l i, c = CArr l i /\ i <= n.
+
+Lemma arr_inv_sort n c : arr_inv n c -> arr_inv n (sort_cont c).
+Proof. intros [l [i [-> H]]]. simpl. eexists _, _. split; eauto. Qed.
+Lemma arr_inv_clear n c : arr_inv n c -> arr_inv n (clear_cont c).
+Proof. intros [l [i [-> H]]]. simpl. eexists _, _. split; eauto. Qed.
+Lemma arr_inv_pre n c : arr_inv n c -> arr_inv n (pre_use c).
+Proof. intros [l [i [-> H]]]. simpl. eexists _, _. split; eauto. Qed.
+
+Lemma step_arr_inv p k n o t c c' :
+  arr_kind k n -> arr_inv n c -> step_gen p k o t c = Ok c' ->
+  arr_inv n c' /\ (o_uniq o = false -> fill c' = S (fill c)).
+Proof.
+  intros Hk [l [i [-> Hi]]] H.
+  assert (H' : step_arr (if p then arr_contains_pinned else arr_contains) n o t l i = Ok c')
+    by (destruct Hk; subst k; exact H).
+  clear H. unfold step_arr in H'.
+  destruct (Nat.eqb_spec i n); [discriminate H'|].
+  step_inv_all.
+  - split; [eexists _, _; split; eauto|]. intros Hu. rewrite Hu in E1. discriminate E1.
+  - split; [eexists _, _; split; eauto; lia|]. reflexivity.
+Qed.
+
+(** T[N] / std::array<T,N>: never more than N elements; without unique-data
+    every element takes one slot, so more than the free slots are refused *)
+Theorem cont_fixed_refuses_overflow_array p k n o st uses st' l i :
+  arr_kind k n -> c_val st = CArr l i -> i <= n ->
+  run_uses_gen (step_gen p k o) o st uses = Ok st' ->
+  exists l' i', c_val st' = CArr l' i' /\ i' <= n /\
+    (o_uniq o = false -> i' = i + length (all_tokens o uses)).
+Proof.
+  intros Hk Hv Hi H.
+  assert (Hinv : arr_inv n (c_val st)) by (rewrite Hv; eexists _, _; eauto).
+  pose proof H as H2.
+  apply (run_uses_inv (step_gen p k o) o (arr_inv n) (fun _ => True)) in H;
+    auto using arr_inv_sort, arr_inv_clear, arr_inv_pre.
+  - destruct H as [[l' [i' [Hc Hle]]] _]. exists l', i'. repeat split; auto.
+    intros Hu.
+    apply (run_uses_count (step_gen p k o) o (arr_inv n)) in H2;
+      auto using arr_inv_sort, arr_inv_clear, arr_inv_pre.
+    + destruct H2 as [_ Hf]. rewrite Hc, Hv in Hf. simpl in Hf. auto.
+    + intros t c c' Hc' Hs. destruct (step_arr_inv _ _ _ _ _ _ _ Hk Hc' Hs). auto.
+  - intros t c c' Hc' Hs. destruct (step_arr_inv _ _ _ _ _ _ _ Hk Hc' Hs). auto.
+Qed.
+
+Definition tuple_inv (c : cont) : Prop := exists a s b n, c = CTuple a s b n /\ n <= 3.
+
+Lemma step_tuple_inv p o t c c' :
+  tuple_inv c -> step_gen p KTuple o t c = Ok c' -> tuple_inv c' /\ fill c' = S (fill c).
+Proof.
+  intros [a [s [b [n [-> Hn]]]]] H. simpl in H. unfold step_tuple in H.
+  step_inv_all; (split; [eexists _, _, _, _; split; eauto; lia|reflexivity]).
+Qed.
+
+(** std::tuple: every element fills the next position; a fourth one is refused *)
+Theorem cont_fixed_refuses_overflow_tuple p o st uses st' a s b n :
+  c_val st = CTuple a s b n -> n <= 3 ->
+  run_uses_gen (step_gen p KTuple o) o st uses = Ok st' ->
+  exists a' s' b' n', c_val st' = CTuple a' s' b' n' /\ n' <= 3 /\ n' = n + length (all_tokens o uses).
+Proof.
+  intros Hv Hn H.
+  apply (run_uses_count (step_gen p KTuple o) o tuple_inv) in H.
+  - destruct H as [[a' [s' [b' [n' [Hc Hle]]]]] Hf]. exists a', s', b', n'. repeat split; auto.
+    rewrite Hc, Hv in Hf. simpl in Hf. auto.
+  - intros. eapply step_tuple_inv; eauto.
+  - intros c [a0 [s0 [b0 [n0 [-> H0]]]]]. simpl. eexists _, _, _, _. eauto.
+  - intros c [a0 [s0 [b0 [n0 [-> H0]]]]]. simpl. eexists _, _, _, _. eauto.
+  - intros c [a0 [s0 [b0 [n0 [-> H0]]]]]. simpl. eexists _, _, _, _. eauto.
+  - rewrite Hv. eexists _, _, _, _. eauto.
+Qed.
+
+Definition bits_inv (n : N) (c : cont) : Prop := exists l, c = CBits l /\ Forall (fun p => (p < n)%N) l.
+
+Lemma nset_add_In p l q : In q (nset_add p l) <-> q = p \/ In q l.
+Proof.
+  induction l as [|x r IH]; simpl; [intuition (subst; auto)|].
+  destruct (N.ltb p x); simpl; [intuition (subst; auto)|].
+  destruct (N.eqb_spec p x); simpl.
+  - subst. intuition (subst; auto).
+  - rewrite IH. intuition (subst; auto).
+Qed.
+
+(** std::bitset<N>: a position outside the bit set is refused *)
+Theorem cont_fixed_refuses_overflow_bitset p n o st uses st' l :
+  c_val st = CBits l -> Forall (fun q => (q < n)%N) l ->
+  run_uses_gen (step_gen p (KBitset n) o) o st uses = Ok st' ->
+  (exists l', c_val st' = CBits l' /\ Forall (fun q => (q < n)%N) l') /\
+  Forall (fun t => exists q, lex_size (apply_fmts (o_fmts o) t) = Ok q /\ (q < n)%N) (all_tokens o uses).
+Proof.
+  intros Hv Hl H.
+  apply (run_uses_inv (step_gen p (KBitset n) o) o (bits_inv n)
+           (fun t => exists q, lex_size (apply_fmts (o_fmts o) t) = Ok q /\ (q < n)%N)) in H; auto.
+  - intros t c c' [l0 [-> Hf]] Hs. simpl in Hs. unfold step_bits in Hs. step_inv_all.
+    apply N.leb_gt in E1. split; [|eauto].
+    eexists. split; eauto. rewrite Forall_forall in *. intros q Hq.
+    apply nset_add_In in Hq. destruct Hq as [->|Hq]; auto.
+  - intros c [l0 [-> Hf]]. simpl. eexists; eauto.
+  - intros c [l0 [-> Hf]]. simpl. eexists; split; eauto.
+  - intros c [l0 [-> Hf]]. simpl. eexists; eauto.
+  - rewrite Hv. eexists; eauto.
+Qed.
+
+(* ------------------------------------------------------------------ *)
+(** * History invariants: a predicate on (elements seen so far, content) *)
+
+Section Hist.
+Variable stp : str -> cont -> res cont.
+Variable o : copts.
+Variable I : list str -> cont -> Prop.
+Hypothesis H_step : forall ts t c c', I ts c -> stp t c = Ok c' -> I (ts ++ [t]) c'.
+Hypothesis H_norm : forall ts c, I ts c -> I ts (norm o c).
+Hypothesis H_pre : forall ts c, I ts c -> I ts (pre_use c).
+
+Lemma assign_tokens_hist toks : forall ts first n c n' c',
+  I ts c -> assign_tokens stp o toks first n c = Ok (n', c') -> I (ts ++ toks) c'.
+Proof.
+  induction toks as [|t r IH]; intros ts first n c n' c' Hi H; simpl in H.
+  - inversion H; subst. rewrite app_nil_r. auto.
+  - inv_bind H. inv_bind H. apply (H_step _ _ _ _ Hi) in E0.
+    apply (IH _ _ _ _ _ _ E0) in H. rewrite <- app_assoc in H. exact H.
+Qed.
+
+Lemma run_tail_hist uses : forall ts st st',
+  c_clearp st = false -> I ts (c_val st) -> run_uses_gen stp o st uses = Ok st' ->
+  I (ts ++ all_tokens o uses) (c_val st').
+Proof.
+  induction uses as [|u r IH]; intros ts st st' Hc Hi H; simpl in H.
+  - inversion H; subst. unfold all_tokens. simpl. rewrite app_nil_r. auto.
+  - inv_bind H. unfold use_value, assign_container in E. simpl in E. rewrite Hc in E.
+    inv_bind E. inv_bind E. inversion E; subst; clear E. destruct a1 as [n' c'].
+    apply (assign_tokens_hist _ ts) in E1; [|apply H_pre; auto].
+    apply (IH (ts ++ tokens (o_sep o) u)) in H; simpl; auto.
+    + unfold all_tokens in *. simpl. rewrite app_assoc. exact H.
+    + apply H_norm. exact E1.
+Qed.
+
+Theorem run_uses_hist u rest st st' :
+  I [] (pre_use (if c_clearp st then clear_cont (c_val st) else c_val st)) ->
+  run_uses_gen stp o st (u :: rest) = Ok st' -> I (all_tokens o (u :: rest)) (c_val st').
+Proof.
+  intros Hi H. simpl in H. inv_bind H. unfold use_value, assign_container in E. simpl in E.
+  inv_bind E. inv_bind E. inversion E; subst; clear E. destruct a1 as [n' c'].
+  apply (assign_tokens_hist _ []) in E1; auto. simpl in E1.
+  apply (run_tail_hist rest (tokens (o_sep o) u)) in H; simpl; auto.
+  apply H_norm. exact E1.
+Qed.
+End Hist.
+
+(* ------------------------------------------------------------------ *)
+(** * Unique data, and the content of the int containers *)
+
+Definition conv_int (o : copts) (t : str) : res Z :=
+  do _ <- run_checks (o_checks o) t; lex_int (apply_fmts (o_fmts o) t).
+
+Lemma step_ints_kind p k o t l :
+  ints_kind k = true -> step_gen p k o t (CInts l) = do l' <- step_ints k o t l; Ok (CInts l').
+Proof. destruct k; simpl; intros H; try discriminate H; reflexivity. Qed.
+
+Lemma step_ints_spec k o t l l' :
+  step_ints k o t l = Ok l' ->
+  exists v, conv_int o t = Ok v /\
+    ((o_uniq o = true /\ In v l /\ o_dup_err o = false /\ l' = l) \/
+     ((o_uniq o = false \/ ~ In v l) /\ l' = place k v l)).
+Proof.
+  unfold step_ints, conv_int. intros H. inv_bind H. inv_bind H. exists a0. simpl. split; auto.
+  destruct (o_uniq o) eqn:Eu; simpl in H.
+  - destruct (z_in a0 l) eqn:Ez.
+    + destruct (o_dup_err o) eqn:Ed; [discriminate H|]. inversion H; subst.
+      left. repeat split; auto. apply z_in_In; auto.
+    + inversion H; subst. right. split; auto. right. intros Hin. apply z_in_In in Hin. congruence.
+  - inversion H; subst. right. split; auto.
+Qed.
+
+Lemma insert_sorted_In {A} (lt : A -> A -> bool) x l z : In z (insert_sorted lt x l) <-> z = x \/ In z l.
+Proof.
+  split.
+  - intros H. eapply Permutation_in in H; [|apply insert_sorted_perm]. simpl in H. intuition (subst; auto).
+  - intros H. eapply Permutation_in; [apply Permutation_sym, insert_sorted_perm|]. simpl. intuition (subst; auto).
+Qed.
+
+Lemma place_In k v l z : In z (place k v l) <-> z = v \/ In z l.
+Proof.
+  destruct k; simpl; try (rewrite in_app_iff; simpl; intuition (subst; auto); fail);
+    try (intuition (subst; auto); fail); try apply insert_sorted_In.
+  - destruct (z_in v l) eqn:E; [|apply insert_sorted_In].
+    apply z_in_In in E. intuition (subst; auto).
+  - destruct (z_in v l) eqn:E; [|apply insert_sorted_In].
+    apply z_in_In in E. intuition (subst; auto).
+Qed.
+
+Lemma place_perm_notin k v l : ~ In v l -> Permutation (place k v l) (v :: l).
+Proof.
+  intros Hn. assert (Hz : z_in v l = false).
+  { destruct (z_in v l) eqn:E; auto. apply z_in_In in E. contradiction. }
+  destruct k; simpl; rewrite ?Hz; auto using insert_sorted_perm;
+    apply Permutation_sym, Permutation_cons_append.
+Qed.
+
+(** kinds that keep every element they are given (all but set / unordered_set) *)
+Definition keeps_all (k : kind) : bool := match k with KSet | KUSet => false | _ => true end.
+
+Lemma place_perm_keeps k v l : keeps_all k = true -> Permutation (place k v l) (v :: l).
+Proof.
+  destruct k; simpl; intros H; try discriminate H; auto using insert_sorted_perm;
+    apply Permutation_sym, Permutation_cons_append.
+Qed.
+
+Definition start_of (st : cst) (l0 : list Z) : list Z := if c_clearp st then [] else l0.
+
+Lemma start_cont st l0 :
+  c_val st = CInts l0 ->
+  pre_use (if c_clearp st then clear_cont (c_val st) else c_val st) = CInts (start_of st l0).
+Proof. intros ->. unfold start_of. destruct (c_clearp st); reflexivity. Qed.
+
+Lemma norm_ints o l : exists l', norm o (CInts l) = CInts l' /\ Permutation l' l.
+Proof.
+  unfold norm. destruct (o_sort o); simpl; eexists; split; eauto. apply sort_by_perm.
+Qed.
+
+(** unique data, duplicates dropped: no duplicates in the destination, and it
+    holds exactly the earlier content and the values of all elements given *)
+Theorem cont_unique_drop p k o st u rest st' l0 :
+  ints_kind k = true -> o_uniq o = true -> o_dup_err o = false ->
+  c_val st = CInts l0 -> NoDup (start_of st l0) ->
+  run_uses_gen (step_gen p k o) o st (u :: rest) = Ok st' ->
+  exists l, c_val st' = CInts l /\ NoDup l /\
+    forall z, In z l <-> In z (start_of st l0) \/ exists t, In t (all_tokens o (u :: rest)) /\ conv_int o t = Ok z.
+Proof.
+  intros Hk Hu Hd Hv Hnd H.
+  set (s0 := start_of st l0) in *.
+  apply (run_uses_hist (step_gen p k o) o
+          (fun ts c => exists l, c = CInts l /\ NoDup l /\
+             forall z, In z l <-> In z s0 \/ exists t, In t ts /\ conv_int o t = Ok z)) in H; auto.
+  - (* step *)
+    intros ts t c c' [l [-> [Hn Hi]]] Hs. rewrite step_ints_kind in Hs; auto. inv_bind Hs.
+    inversion Hs; subst; clear Hs. apply step_ints_spec in E.
+    destruct E as [v [Hc [[_ [Hin [_ ->]]]|[Hor ->]]]].
+    + exists l. split; [auto|split; [auto|]]. intros z. rewrite Hi. split.
+      * intros [H1|[t' [H1 H2]]]; auto. right. exists t'. rewrite in_app_iff. auto.
+      * intros [H1|[t' [H1 H2]]]; auto. rewrite in_app_iff in H1. destruct H1 as [H1|[<-|[]]]; eauto.
+        assert (z = v) by congruence. subst. apply Hi in Hin. exact Hin.
+    + assert (Hnv : ~ In v l) by (destruct Hor as [Hor|Hor]; [congruence|auto]).
+      exists (place k v l). repeat split.
+      * eapply Permutation_NoDup; [apply Permutation_sym, place_perm_notin; auto|]. constructor; auto.
+      * intros Hz. apply place_In in Hz. destruct Hz as [->|Hz].
+        -- right. exists t. rewrite in_app_iff. simpl. auto.
+        -- apply Hi in Hz. destruct Hz as [Hz|[t' [H1 H2]]]; auto. right. exists t'. rewrite in_app_iff. auto.
+      * intros Hz. apply place_In. destruct Hz as [Hz|[t' [H1 H2]]].
+        -- right. apply Hi. auto.
+        -- rewrite in_app_iff in H1. destruct H1 as [H1|[<-|[]]].
+           ++ right. apply Hi. eauto.
+           ++ left. congruence.
+  - (* norm *)
+    intros ts c [l [-> [Hn Hi]]]. destruct (norm_ints o l) as [l' [-> Hp]].
+    exists l'. repeat split.
+    + eapply Permutation_NoDup; [apply Permutation_sym; eauto|auto].
+    + intros Hz. apply Hi. eapply Permutation_in; eauto.
+    + intros Hz. apply Hi in Hz. eapply Permutation_in; [apply Permutation_sym; eauto|auto].
+  - intros ts c [l [-> Hr]]. simpl. eauto.
+  - rewrite (start_cont st l0 Hv). exists s0. repeat split; auto.
+    intros [Hz|[t [[] _]]]. auto.
+Qed.
+
+(** unique data, duplicates are errors: the uses are accepted only if all
+    values are new; then every element was stored *)
+Theorem cont_unique_refuse p k o st u rest st' l0 :
+  ints_kind k = true -> o_uniq o = true -> o_dup_err o = true ->
+  c_val st = CInts l0 -> NoDup (start_of st l0) ->
+  run_uses_gen (step_gen p k o) o st (u :: rest) = Ok st' ->
+  exists l vals, c_val st' = CInts l /\
+    Forall2 (fun t v => conv_int o t = Ok v) (all_tokens o (u :: rest)) vals /\
+    Permutation l (start_of st l0 ++ vals) /\ NoDup (start_of st l0 ++ vals).
+Proof.
+  intros Hk Hu Hd Hv Hnd H.
+  set (s0 := start_of st l0) in *.
+  apply (run_uses_hist (step_gen p k o) o
+          (fun ts c => exists l vals, c = CInts l /\ Forall2 (fun t v => conv_int o t = Ok v) ts vals /\
+             Permutation l (s0 ++ vals) /\ NoDup l)) in H; auto.
+  - destruct H as [l [vals [Hc [Hf [Hp Hn]]]]]. exists l, vals. repeat split; auto.
+    eapply Permutation_NoDup; eauto.
+  - intros ts t c c' [l [vals [-> [Hf [Hp Hn]]]]] Hs. rewrite step_ints_kind in Hs; auto. inv_bind Hs.
+    inversion Hs; subst; clear Hs. apply step_ints_spec in E.
+    destruct E as [v [Hc [[_ [_ [Hd' _]]]|[Hor ->]]]]; [congruence|].
+    assert (Hnv : ~ In v l) by (destruct Hor as [Hor|Hor]; [congruence|auto]).
+    exists (place k v l), (vals ++ [v]). repeat split.
+    + apply Forall2_app; auto.
+    + eapply perm_trans; [apply place_perm_notin; auto|].
+      rewrite app_assoc. eapply perm_trans; [|apply Permutation_cons_append]. apply perm_skip; auto.
+    + eapply Permutation_NoDup; [apply Permutation_sym, place_perm_notin; auto|]. constructor; auto.
+  - intros ts c [l [vals [-> [Hf [Hp Hn]]]]]. destruct (norm_ints o l) as [l' [-> Hp']].
+    exists l', vals. repeat split; auto.
+    + eapply perm_trans; eauto.
+    + eapply Permutation_NoDup; [apply Permutation_sym; eauto|auto].
+  - intros ts c [l [vals [-> Hr]]]. simpl. eauto.
+  - rewrite (start_cont st l0 Hv). exists s0, []. rewrite app_nil_r. repeat split; auto.
+Qed.
+
+(** without unique data, every kind but the sets keeps every element: the
+    destination is the earlier content followed by all values in the order of
+    the kind's own placement - sorted if so configured *)
+Theorem cont_seq_content p k o st u rest st' l0 :
+  ints_kind k = true -> keeps_all k = true -> o_uniq o = false ->
+  c_val st = CInts l0 ->
+  run_uses_gen (step_gen p k o) o st (u :: rest) = Ok st' ->
+  exists l vals, c_val st' = CInts l /\
+    Forall2 (fun t v => conv_int o t = Ok v) (all_tokens o (u :: rest)) vals /\
+    Permutation l (start_of st l0 ++ vals) /\
+    (o_sort o = false -> l = fold_left (fun acc v => place k v acc) vals (start_of st l0)) /\
+    (o_sort o = true -> l = sort_by Z.ltb (start_of st l0 ++ vals)).
+Proof.
+  intros Hk Hka Hu Hv H.
+  set (s0 := start_of st l0) in *.
+  pose proof H as H2.
+  apply (run_uses_hist (step_gen p k o) o
+          (fun ts c => exists l vals, c = CInts l /\ Forall2 (fun t v => conv_int o t = Ok v) ts vals /\
+             Permutation l (s0 ++ vals) /\
+             (o_sort o = false -> l = fold_left (fun acc v => place k v acc) vals s0))) in H; auto.
+  - destruct H as [l [vals [Hc [Hf [Hp Hn]]]]]. exists l, vals. repeat split; auto.
+    intros Hs. apply cont_sorted_gen in H2; auto; [|discriminate]. rewrite Hc in H2. simpl in H2.
+    apply (sorted_perm_unique Z.ltb Z_lt_irrefl Z_le_antisym).
+    + clear - H2. induction H2; constructor; auto. eapply Forall_impl; [|eauto].
+      intros b Hb. unfold le_of. apply Z.ltb_ge. auto.
+    + apply sort_by_sorted; [apply Z_lt_irrefl|apply Z_lt_le_trans].
+    + eapply perm_trans; eauto. apply Permutation_sym, sort_by_perm.
+  - intros ts t c c' [l [vals [-> [Hf [Hp Hn]]]]] Hs. rewrite step_ints_kind in Hs; auto. inv_bind Hs.
+    inversion Hs; subst; clear Hs. apply step_ints_spec in E.
+    destruct E as [v [Hc [[Hu' _]|[_ ->]]]]; [congruence|].
+    exists (place k v l), (vals ++ [v]). repeat split.
+    + apply Forall2_app; auto.
+    + eapply perm_trans; [apply place_perm_keeps; auto|].
+      rewrite app_assoc. eapply perm_trans; [|apply Permutation_cons_append]. apply perm_skip; auto.
+    + intros Hs. rewrite fold_left_app. simpl. rewrite <- Hn; auto.
+  - intros ts c [l [vals [-> [Hf [Hp Hn]]]]]. unfold norm. destruct (o_sort o) eqn:Es; simpl.
+    + exists (sort_by Z.ltb l), vals. repeat split; auto; [|discriminate].
+      eapply perm_trans; [apply sort_by_perm|auto].
+    + exists l, vals. repeat split; auto.
+  - intros ts c [l [vals [-> Hr]]]. simpl. eauto.
+  - rewrite (start_cont st l0 Hv). exists s0, []. rewrite app_nil_r. repeat split; auto.
+Qed.
+
+(** the placement of the kinds *)
+Lemma place_fold_append k vals : forall l,
+  match k with KVec | KDeque | KList | KQueue => true | _ => false end = true ->
+  fold_left (fun acc v => place k v acc) vals l = l ++ vals.
+Proof.
+  induction vals as [|v r IH]; intros l Hk; simpl; [rewrite app_nil_r; auto|].
+  rewrite IH; auto. destruct k; try discriminate Hk; simpl; rewrite <- app_assoc; reflexivity.
+Qed.
+
+Lemma place_fold_front k vals : forall l,
+  match k with KFwd | KStack => true | _ => false end = true ->
+  fold_left (fun acc v => place k v acc) vals l = rev vals ++ l.
+Proof.
+  induction vals as [|v r IH]; intros l Hk; simpl; auto.
+  rewrite IH; auto. destruct k; try discriminate Hk; simpl; rewrite <- app_assoc; reflexivity.
+Qed.
+
+(* ------------------------------------------------------------------ *)
+(** * The two defects of the pinned tree, on the pinned element steps *)
+
+Definition o_plain (k : kind) : copts :=
+  {| o_sep := default_sep k; o_clear := false; o_sort := false; o_uniq := false; o_dup_err := false;
+     o_multi := false; o_checks := []; o_fmts := []; o_card := default_card k |}.
+Definition o_uniq_only (k : kind) : copts :=
+  {| o_sep := default_sep k; o_clear := false; o_sort := false; o_uniq := true; o_dup_err := false;
+     o_multi := false; o_checks := []; o_fmts := []; o_card := default_card k |}.
+
+(** "-l 0,5" *)
+Definition w_arr : list str := [[45; 108]; [48; 44; 53]]%N.
+(** "-l 1" *)
+Definition w_vb : list str := [[45; 108]; [49]]%N.
+
+(** T[4] with unique data: the value 0 is dropped because the unfilled slots hold 0 *)
+Lemma pinned_array_unique_witness :
+  option_map c_val (match eval_pinned (KArr 4) (o_uniq_only (KArr 4)) (CArr [0; 0; 0; 0]%Z 0) w_arr with
+                    | Ok st => Some st | _ => None end) = Some (CArr [5; 0; 0; 0]%Z 1)
+  /\ option_map c_val (match eval (KArr 4) (o_uniq_only (KArr 4)) (CArr [0; 0; 0; 0]%Z 0) w_arr with
+                       | Ok st => Some st | _ => None end) = Some (CArr [0; 5; 0; 0]%Z 2).
+Proof. split; vm_compute; reflexivity. Qed.
+
+(** vector<bool> of size 1: position 1 is lost *)
+Lemma pinned_vector_bool_witness :
+  option_map c_val (match eval_pinned KVecBool (o_plain KVecBool) (CVBool 1 []) w_vb with
+                    | Ok st => Some st | _ => None end) = Some (CVBool 1 [])
+  /\ option_map c_val (match eval KVecBool (o_plain KVecBool) (CVBool 1 []) w_vb with
+                       | Ok st => Some st | _ => None end) = Some (CVBool 2 [1%N]).
+Proof. split; vm_compute; reflexivity. Qed.
+
+(* ------------------------------------------------------------------ *)
+(** * Arrays with unique data and vector<bool> on the fixed tree: nothing given is lost *)
+
+(** T[N] / std::array, unique data (dropping): the filled part has no
+    duplicates and holds exactly the values filled before and the values given *)
+Theorem cont_array_unique_drop k n o st u rest st' l0 i0 :
+  arr_kind k n -> o_uniq o = true -> o_dup_err o = false ->
+  c_val st = CArr l0 i0 -> NoDup (firstn i0 l0) ->
+  run_uses k o st (u :: rest) = Ok st' ->
+  exists l i, c_val st' = CArr l i /\ NoDup (firstn i l) /\
+    forall z, In z (firstn i l) <->
+              In z (firstn i0 l0) \/ exists t, In t (all_tokens o (u :: rest)) /\ conv_int o t = Ok z.
+Proof.
+  intros Hk Hu Hd Hv Hnd H. unfold run_uses in H.
+  apply (run_uses_hist (step k o) o
+          (fun ts c => exists l i, c = CArr l i /\ NoDup (firstn i l) /\
+             forall z, In z (firstn i l) <->
+                       In z (firstn i0 l0) \/ exists t, In t ts /\ conv_int o t = Ok z)) in H; auto.
+  - intros ts t c c' [l [i [-> [Hn Hi]]]] Hs.
+    assert (Hs' : step_arr arr_contains n o t l i = Ok c') by (destruct Hk; subst k; exact Hs).
+    clear Hs. unfold step_arr in Hs'. destruct (Nat.eqb i n); [discriminate Hs'|].
+    inv_bind Hs'. inv_bind Hs'. rewrite Hu, Hd in Hs'. simpl in Hs'.
+    assert (Hc : conv_int o t = Ok a0) by (unfold conv_int; rewrite E; destruct a; exact E0).
+    unfold arr_contains in Hs'. destruct (z_in a0 (firstn i l)) eqn:Ez; inversion Hs'; subst; clear Hs'.
+    + apply z_in_In in Ez. exists l, i. split; [auto|split; [auto|]]. intros z. rewrite Hi. split.
+      * intros [H1|[t' [H1 H2]]]; auto. right. exists t'. rewrite in_app_iff. auto.
+      * intros [H1|[t' [H1 H2]]]; auto. rewrite in_app_iff in H1. destruct H1 as [H1|[<-|[]]]; eauto.
+        assert (z = a0) by congruence. subst. apply Hi in Ez. exact Ez.
+    + assert (Hnv : ~ In a0 (firstn i l)) by (intros Hin; apply z_in_In in Hin; congruence).
+      exists (arr_set l i a0), (S i). rewrite firstn_S_upd. split; [auto|split].
+      * eapply Permutation_NoDup; [apply Permutation_cons_append|]. constructor; auto.
+      * intros z. rewrite in_app_iff. simpl. rewrite Hi. split.
+        -- intros [[H1|[t' [H1 H2]]]|[<-|[]]]; auto.
+           ++ right. exists t'. rewrite in_app_iff. auto.
+           ++ right. exists t. rewrite in_app_iff. simpl. auto.
+        -- intros [H1|[t' [H1 H2]]]; auto. rewrite in_app_iff in H1. destruct H1 as [H1|[<-|[]]]; eauto.
+           right. left. congruence.
+  - intros ts c [l [i [-> [Hn Hi]]]]. unfold norm. destruct (o_sort o); simpl; [|eauto].
+    eexists _, _. split; [reflexivity|]. rewrite firstn_sorted_part. split.
+    + eapply Permutation_NoDup; [apply Permutation_sym, sort_by_perm|auto].
+    + intros z. rewrite <- Hi. split; intros Hz.
+      * eapply Permutation_in; [apply (sort_by_perm Z.ltb)|exact Hz].
+      * eapply Permutation_in; [apply Permutation_sym, (sort_by_perm Z.ltb)|exact Hz].
+  - intros ts c [l [i [-> Hr]]]. simpl. eauto.
+  - rewrite Hv. replace (if c_clearp st then clear_cont (CArr l0 i0) else CArr l0 i0) with (CArr l0 i0)
+      by (destruct (c_clearp st); reflexivity).
+    simpl. exists l0, i0. split; [auto|split; [auto|]]. intros z. split; auto.
+    intros [Hz|[t [[] _]]]. auto.
+Qed.
+
+(** vector<bool>: exactly the positions set before (unless cleared) and the
+    positions given are set, and the vector is large enough for all of them *)
+Theorem cont_vector_bool_positions o st u rest st' size0 l0 :
+  c_val st = CVBool size0 l0 -> Forall (fun q => (q < size0)%N) l0 ->
+  run_uses KVecBool o st (u :: rest) = Ok st' ->
+  exists size l, c_val st' = CVBool size l /\ Forall (fun q => (q < size)%N) l /\
+    forall q, In q l <->
+      In q (if c_clearp st then [] else l0) \/
+      exists t, In t (all_tokens o (u :: rest)) /\ lex_size (apply_fmts (o_fmts o) t) = Ok q.
+Proof.
+  intros Hv Hb H. unfold run_uses in H.
+  set (s0 := if c_clearp st then [] else l0) in *.
+  apply (run_uses_hist (step KVecBool o) o
+          (fun ts c => exists size l, c = CVBool size l /\ Forall (fun q => (q < size)%N) l /\
+             forall q, In q l <-> In q s0 \/ exists t, In t ts /\ lex_size (apply_fmts (o_fmts o) t) = Ok q)) in H; auto.
+  - intros ts t c c' [size [l [-> [Hf Hi]]]] Hs. unfold step, step_gen, step_vb in Hs.
+    inv_bind Hs. inv_bind Hs. destruct (N.leb VB_LIMIT a0); [discriminate Hs|].
+    inversion Hs; subst; clear Hs. unfold vb_store. eexists _, _. split; [reflexivity|]. split.
+    + rewrite Forall_forall in *. intros q Hq. apply nset_add_In in Hq.
+      destruct (N.leb_spec size a0); destruct Hq as [->|Hq]; try lia;
+        specialize (Hf _ Hq); lia.
+    + intros q. rewrite nset_add_In, Hi. split.
+      * intros [->|[H1|[t' [H1 H2]]]]; auto.
+        -- right. exists t. rewrite in_app_iff. simpl. auto.
+        -- right. exists t'. rewrite in_app_iff. auto.
+      * intros [H1|[t' [H1 H2]]]; auto. rewrite in_app_iff in H1. destruct H1 as [H1|[<-|[]]]; eauto.
+        left. congruence.
+  - intros ts c [size [l [-> Hr]]]. unfold norm. destruct (o_sort o); simpl; eauto.
+  - intros ts c [size [l [-> [Hf Hi]]]]. destruct size; simpl; [|eauto].
+    destruct l as [|q r]; [|inversion Hf; subst; lia].
+    exists 10%N, []. split; [auto|split; [auto|]]. exact Hi.
+  - rewrite Hv. unfold s0. destruct (c_clearp st); simpl.
+    + exists 10%N, []. split; [auto|split; [auto|]]. intros q. split; [intros []|intros [[]|[t [[] _]]]].
+    + destruct size0.
+      * destruct l0 as [|q r]; [|inversion Hb; subst; lia]. simpl.
+        exists 10%N, []. split; [auto|split; [auto|]]. intros q. split; [intros []|intros [[]|[t [[] _]]]].
+      * simpl. exists (Npos p), l0. split; [auto|split; [auto|]]. intros q. split; auto.
+        intros [Hq|[t [[] _]]]. auto.
+Qed.
